@@ -59,7 +59,7 @@ func c0102Child(mode string) mon.ChildFunc {
 			c.Feature("grammars_built")
 			r := c.RNG("inputs", h.ID)
 			smp := gram.NewSampler(g, r)
-			inputs := smp.Inputs(nInputs)
+			inputs := append(featInputs(g), smp.Inputs(nInputs)...)
 			exhaustive := 0
 			if c.Thorough() && gi%4 == 0 {
 				// all strings up to length 5 over <=4 terminals of the grammar's own alphabet
@@ -195,7 +195,7 @@ func init() {
 		Batches:    func(t string) int { return pick(t, 4, 16) },
 		Floor:      func(t string) int { return pick(t, 5000, 100000) },
 		TimeoutSec: func(t string) int { return pick(t, 900, 3600) },
-		Prepare:    gramPrepare("C01", func(t string) int { return pick(t, 90, 220) }, c01Opts, nil, false),
+		Prepare:    gramPrepare("C01", func(t string) int { return pick(t, 90, 220) }, c01Opts, witnessExtra, false),
 		Child:      c0102Child("C01"),
 	})
 	Register(&mon.Spec{
@@ -207,7 +207,7 @@ func init() {
 		Batches:    func(t string) int { return pick(t, 4, 16) },
 		Floor:      func(t string) int { return pick(t, 1000, 20000) },
 		TimeoutSec: func(t string) int { return pick(t, 900, 3600) },
-		Prepare:    gramPrepare("C02", func(t string) int { return pick(t, 90, 220) }, c02Opts, nil, false),
+		Prepare:    gramPrepare("C02", func(t string) int { return pick(t, 90, 220) }, c02Opts, witnessExtra, false),
 		Child:      c0102Child("C02"),
 	})
 }
